@@ -262,10 +262,11 @@ def filesNotMapping (md0 : Items) : Bool :=
   | _ => true
 
 mutual
-/-- sum of the magnitudes of all numbers in a value (`int`s and truncated finite `float`s, keys
-    included) -/
+/-- sum of the magnitudes of all numbers in a value (`int`s incl. `bool`s and truncated finite
+    `float`s, keys included) -/
 def sumAbs : PyVal → Nat
   | .int i => i.natAbs
+  | .bool b => if b then 1 else 0
   | .float (.fin t _ _) => t.natAbs
   | .list l => sumAbsList l
   | .tuple l => sumAbsList l
